@@ -97,7 +97,7 @@ func ruleWrapCallsOnce(c *chk.Ctx) {
 	}
 	var h *ssa.Function
 	for _, g := range handedOut(c, wrap) {
-		if isHandlerSig(c, g.Signature) && g.Parent() != nil {
+		if isHandlerSig(c, g.Signature) && (g.Parent() != nil || g.Signature.Recv() != nil) {
 			h = g
 		}
 	}
@@ -113,13 +113,22 @@ func ruleWrapCallsOnce(c *chk.Ctx) {
 			reflCall = call // the function value called directly rather than through a pre-bound fv.Call
 			return
 		}
-		if !ok || call.Call.IsInvoke() || call.Call.StaticCallee() != nil {
+		if !ok || call.Call.IsInvoke() {
 			return
 		}
 		if _, isB := call.Call.Value.(*ssa.Builtin); isB {
 			return
 		}
-		sig, _ := call.Call.Value.Type().Underlying().(*types.Signature)
+		var sig *types.Signature
+		if g := call.Call.StaticCallee(); g != nil {
+			// a private method of the wrapper's own state playing one of the three parts
+			if !c.P.InRepo[g] || ir.Exported(g) || g.Signature.Recv() == nil {
+				return
+			}
+			sig = types.NewSignatureType(nil, nil, nil, g.Signature.Params(), g.Signature.Results(), false)
+		} else {
+			sig, _ = call.Call.Value.Type().Underlying().(*types.Signature)
+		}
 		if sig == nil {
 			return
 		}
@@ -149,7 +158,7 @@ func ruleWrapCallsOnce(c *chk.Ctx) {
 	}
 	c.Check(okErr, "PAIR.wrap", h, "decode failure returned without calling", h.Pos(), "the decoder's error is returned on its err != nil edge, before any call", "a decoding failure is not returned as is")
 	// results pass through the output decoder
-	okOut := ir.NormCell(decodeOut.Call.Args[0]) == ssa.Value(reflCall)
+	okOut := ir.NormCell(decodeOut.Call.Args[len(decodeOut.Call.Args)-1]) == ssa.Value(reflCall)
 	for _, r := range ir.Returns(h) {
 		if ir.InstrDominates(reflCall, r) {
 			if !ir.IsExtractOf(ir.ReturnResult(r, 0), decodeOut, 0) || !ir.IsExtractOf(ir.ReturnResult(r, 1), decodeOut, 1) {
@@ -1056,6 +1065,55 @@ func ruleStubsKeepStrictness(c *chk.Ctx) {
 								}
 							}
 						}
+					}
+				}
+			}
+			// or the verdict was taken once, when the stub was built: a bool field of the stub that
+			// is only ever given the ok flag of that assertion on the value stored as the target in
+			// the same literal
+			if !guarded {
+				for _, cd := range ir.CondsAt(call.Block()) {
+					if cd.Truth {
+						continue
+					}
+					lu, ok := cd.V.(*ssa.UnOp)
+					if !ok || lu.Op != token.MUL {
+						continue
+					}
+					ffa, ok := lu.X.(*ssa.FieldAddr)
+					if !ok || ir.FieldOwner(ffa) != ir.FieldOwner(fa) {
+						continue
+					}
+					flag := ir.FieldVar(ffa)
+					stores := c.P.FieldStores(flag)
+					all := len(stores) > 0
+					for _, fs := range stores {
+						good := false
+						if e, isE := fs.Val.(*ssa.Extract); isE && e.Index == 1 {
+							if ta, isTA := e.Tuple.(*ssa.TypeAssert); isTA {
+								if iface, isI := ta.AssertedType.Underlying().(*types.Interface); isI {
+									for i := 0; i < iface.NumMethods(); i++ {
+										if iface.Method(i).Name() != "DisallowUnknownFields" {
+											continue
+										}
+										// the asserted value is what the same stub gets as its target
+										sfa, _ := fs.Addr.(*ssa.FieldAddr)
+										for _, ts := range c.P.FieldStores(target) {
+											tfa, _ := ts.Addr.(*ssa.FieldAddr)
+											if sfa != nil && tfa != nil && tfa.X == sfa.X && (ts.Val == ta.X || ir.SameValue(ts.Val, ta.X)) {
+												good = true
+											}
+										}
+									}
+								}
+							}
+						}
+						if !good {
+							all = false
+						}
+					}
+					if all {
+						guarded = true
 					}
 				}
 			}
